@@ -231,6 +231,9 @@ func buildBatchWorld(root string, days int) *batchWorld {
 		"B":  "project=p1 plotNr=2 fcode=W parameter=par",
 		"C":  "project=p2 plotNr=1 fcode=W parameter=par poligonID=C",
 		"A2": "project=p1 plotNr=1 fcode=W parameter=par poligonID=X",
+		// the same plots with configuration and crop overrides on the line (must not reach other runs of the session)
+		"Ao": "project=p1 plotNr=1 fcode=W parameter=par poligonID=O NDeposition=60 KcFactorBareSoil=0.6 LeachingDepth=9 CropFile=PARAM.XWA c_MAXAMAX=30 c_TSUM_1=60 c_WUMAXPF=7",
+		"Bo": "project=p1 plotNr=2 fcode=W parameter=par poligonID=P Fertilization=50 ETpot=2 CropFile=PARAM.XWB c_MINTMP=1 c_KC_2=1.2",
 		// lines that fail with an error of their own
 		"Fsoil":  "project=p1 plotNr=1 fcode=W parameter=par poligonID=F soilId=999",
 		"Fyear":  "project=p2 plotNr=1 fcode=W parameter=par poligonID=G StartYear=1990",
